@@ -452,12 +452,27 @@ def _const_str(m, f, e):
     return None
 
 
-def classify_staging_expr(m, f, e, path_param, var):
+def classify_staging_expr(m, f, e, path_param, var, depth=0):
     # pathlib.Path(var) / type(path)(var): conversion of the already derived name
     if isinstance(e, ast.Call) and len(e.args) == 1 and is_name(e.args[0], var):
         names = ext_names(m, f, e)
         if any(n.startswith("pathlib.") for n in names) or norm(e.func) == f"type({path_param})":
             return "ok", "conversion of the derived staging name back to a Path"
+    # the same through a conditional expression and/or a differently named temporary
+    if isinstance(e, ast.IfExp) and depth < 4:
+        a = classify_staging_expr(m, f, e.body, path_param, var, depth + 1)
+        b = classify_staging_expr(m, f, e.orelse, path_param, var, depth + 1)
+        for v_ in (a, b):
+            if v_[0] != "ok":
+                return v_
+        return "ok", f"{a[1]} / {b[1]}"
+    if isinstance(e, ast.Name) and e.id not in (var, path_param) and depth < 4:
+        bs = [b_ for b_ in f.bindings.get(e.id, [])]
+        if len(bs) == 1 and bs[0][0] == "assign" and not bs[0][2]:
+            return classify_staging_expr(m, f, bs[0][1], path_param, e.id, depth + 1)
+    if isinstance(e, ast.Call) and len(e.args) == 1 and not e.keywords and depth < 4 and \
+            (norm(e.func) in ("pathlib.Path", "Path", "pathlib.PurePath", f"type({path_param})")):
+        return classify_staging_expr(m, f, e.args[0], path_param, var, depth + 1)
     if isinstance(e, ast.JoinedStr):
         vals = e.values
         if (len(vals) >= 2 and isinstance(vals[0], ast.FormattedValue) and is_name(vals[0].value, path_param)
